@@ -41,7 +41,15 @@ const (
 	day  = 24 * hour
 )
 
-// key of a source file: (hour of the source family, file number)
+// dayInfo is one source store (one day segment).
+type dayInfo struct {
+	dayNo int64
+	seg   string
+	segT  int64
+	store kv.Store
+}
+
+// key of a source file: (code of the source family = dayIndex*100 + hour, file number)
 type fkey struct {
 	h    int
 	file int64
@@ -74,7 +82,9 @@ type env struct {
 
 	srcStore kv.Store
 	fams     map[int]kv.Family // hour -> source family
-	famByID  map[int]int       // source family id -> hour
+	famByID  map[string]int    // "<source segment name>/<family id>" -> family code
+	days     []dayInfo         // source stores (days of one month); e.seg/e.segT/e.dayNo describe days[0]
+	multi    bool              // several source days
 	files    map[fkey]fileData
 	order    []fkey
 	owned    map[[3]uint32]bool // (metric, series, field) of first/last fields already written
@@ -94,8 +104,18 @@ type env struct {
 	big       bool // concurrent bulk case: file contents are not sent to the model
 }
 
-func (e *env) srcStorePath() string {
-	return filepath.Join(e.base, "segment", timeutil.Interval(e.src).Type().String(), e.seg)
+func (e *env) srcStorePath(di int) string {
+	return filepath.Join(e.base, "segment", timeutil.Interval(e.src).Type().String(), e.days[di].seg)
+}
+
+// codeOf maps (source segment name, hour) to the family code; -1 if unknown.
+func (e *env) codeOf(seg string, hour int) int {
+	for di := range e.days {
+		if e.days[di].seg == seg {
+			return di*100 + hour
+		}
+	}
+	return -1
 }
 
 func (e *env) tgtStorePath(tgt int64, segName string) string {
@@ -103,7 +123,7 @@ func (e *env) tgtStorePath(tgt int64, segName string) string {
 }
 
 func (e *env) srcFamStart(h int) int64 {
-	return timeutil.Interval(e.src).Calculator().CalcFamilyStartTime(e.segT, h)
+	return timeutil.Interval(e.src).Calculator().CalcFamilyStartTime(e.days[h/100].segT, h%100)
 }
 
 // ---------------------------------------------------------------- commit hook
@@ -160,7 +180,8 @@ func (e *env) canon(storePath, family string, logs []version.Log) rec {
 			newFiles = append(newFiles, a)
 		case "newRollupFile":
 			r.kind = 'F'
-			h, _ := strconv.Atoi(family)
+			hh, _ := strconv.Atoi(family)
+			h := e.codeOf(filepath.Base(storePath), hh)
 			k := fkey{h, a}
 			if len(r.keys) == 0 || r.keys[0] != k {
 				r.keys = append(r.keys, k)
@@ -168,21 +189,22 @@ func (e *env) canon(storePath, family string, logs []version.Log) rec {
 			r.trip = append(r.trip, [3]int64{0, 0, b})
 		case "deleteRollupFile":
 			r.kind = 'S'
-			h, _ := strconv.Atoi(family)
+			hh, _ := strconv.Atoi(family)
+			h := e.codeOf(filepath.Base(storePath), hh)
 			r.trip = append(r.trip, [3]int64{int64(h), a, b})
 		case "newReferenceFile":
 			r.kind = 'T'
 			r.iv = e.ivOfStore(storePath)
-			h, ok := e.famByID[int(b)]
-			if !ok || store != e.seg {
+			h, ok := e.famByID[store+"/"+strconv.FormatInt(b, 10)]
+			if !ok {
 				h = -1
 			}
 			r.keys = append(r.keys, fkey{h, a})
 		case "deleteReferenceFile":
 			r.kind = 'D'
 			r.iv = e.ivOfStore(storePath)
-			h, ok := e.famByID[int(b)]
-			if !ok || store != e.seg {
+			h, ok := e.famByID[store+"/"+strconv.FormatInt(b, 10)]
+			if !ok {
 				h = -1
 			}
 			r.keys = append(r.keys, fkey{h, a})
@@ -232,7 +254,7 @@ func (e *env) canon(storePath, family string, logs []version.Log) rec {
 	switch {
 	case r.kind == 'S' || r.kind == 'F':
 		if h, err := strconv.Atoi(family); err == nil {
-			r.srcH = h
+			r.srcH = e.codeOf(filepath.Base(storePath), h)
 		}
 	case len(r.keys) > 0:
 		r.srcH = r.keys[0].h
@@ -309,19 +331,28 @@ func (e *env) tgtSegName(tgt int64) string {
 }
 
 func (e *env) openStores() error {
-	var err error
-	if e.srcStore, err = kv.GetStoreManager().CreateStore(e.srcStorePath(), e.srcOption()); err != nil {
-		return err
-	}
 	e.fams = map[int]kv.Family{}
-	e.famByID = map[int]int{}
-	for _, h := range e.hours {
-		f, err := e.srcStore.CreateFamily(strconv.Itoa(h), e.famOpt)
+	e.famByID = map[string]int{}
+	for di := range e.days {
+		st, err := kv.GetStoreManager().CreateStore(e.srcStorePath(di), e.srcOption())
 		if err != nil {
 			return err
 		}
-		e.fams[h] = f
-		e.famByID[int(f.ID())] = h
+		e.days[di].store = st
+		if di == 0 {
+			e.srcStore = st
+		}
+		for _, h := range e.hours {
+			if h/100 != di {
+				continue
+			}
+			f, err := st.CreateFamily(strconv.Itoa(h%100), e.famOpt)
+			if err != nil {
+				return err
+			}
+			e.fams[h] = f
+			e.famByID[e.days[di].seg+"/"+strconv.Itoa(int(f.ID()))] = h
+		}
 	}
 	for _, t := range e.tgts {
 		if e.avail[t] {
@@ -368,8 +399,8 @@ func (e *env) stateString() string {
 			snap := f.GetSnapshot()
 			for store, fams := range snap.GetCurrent().GetAllReferenceFiles() {
 				for fid, files := range fams {
-					h, ok := e.famByID[int(fid)]
-					if !ok || store != e.seg {
+					h, ok := e.famByID[store+"/"+strconv.Itoa(int(fid))]
+					if !ok {
 						h = -1
 					}
 					for _, file := range files {
@@ -413,7 +444,11 @@ func (e *env) opCfg() {
 	for i, t := range e.tgts {
 		ts[i] = strconv.FormatInt(t, 10)
 	}
-	e.c.Op(fmt.Sprintf("cfg %d %d %s | %s", e.src, e.dayNo, strings.Join(hs, ","), strings.Join(ts, " ")), "ok")
+	ds := make([]string, len(e.days))
+	for i := range e.days {
+		ds[i] = strconv.FormatInt(e.days[i].dayNo, 10)
+	}
+	e.c.Op(fmt.Sprintf("cfg %d %s %s | %s", e.src, strings.Join(ds, ","), strings.Join(hs, ","), strings.Join(ts, " ")), "ok")
 }
 
 // locLine mirrors the locating lines of family.rollup() with the real calculators and the real
@@ -430,7 +465,7 @@ func locLine(src, tgt, srcSegTime int64, fTime int) (string, kv.Rollup) {
 }
 
 func (e *env) opLoc(h int, tgt int64) {
-	line, _ := locLine(e.src, tgt, e.segT, h)
+	line, _ := locLine(e.src, tgt, e.days[h/100].segT, h%100)
 	e.c.Op(fmt.Sprintf("loc %d %d", h, tgt), line)
 }
 
@@ -483,7 +518,7 @@ func (e *env) opRollup(h int, cut int, viaStore bool) error {
 	os.RemoveAll(e.image)
 	var err error
 	if viaStore {
-		err = kv.VerifForceRollupSync(e.srcStore)
+		err = kv.VerifForceRollupSync(e.days[h/100].store)
 	} else {
 		err = kv.VerifRollupSync(e.fams[h])
 	}
@@ -634,7 +669,10 @@ func groupsString(g map[string]map[viewKey]*viewVal) string {
 func (e *env) opRead(tgt int64) error {
 	g, err := e.readTarget(tgt)
 	if err != nil {
-		return err
+		// a target family that cannot be read back holds none of the aggregates C04 demands
+		e.c.Fail("target-read-error", fmt.Sprintf("interval %d: reading the target families fails: %s", tgt, strings.ReplaceAll(err.Error(), e.base, "<base>")))
+		e.c.Op(fmt.Sprintf("read %d", tgt), "read-error")
+		return nil
 	}
 	e.c.Op(fmt.Sprintf("read %d", tgt), groupsString(g))
 	e.checkAggregates(tgt, g)
@@ -964,16 +1002,25 @@ func (e *env) destroy() {
 }
 
 func (e *env) setDay(dayNo int64) error {
-	e.dayNo = dayNo
-	e.seg = timeutil.Interval(e.src).Calculator().GetSegment(dayNo * day)
-	segT, err := timeutil.Interval(e.src).Calculator().ParseSegmentTime(e.seg)
+	e.days = nil
+	if err := e.addDay(dayNo); err != nil {
+		return err
+	}
+	e.dayNo, e.seg, e.segT = e.days[0].dayNo, e.days[0].seg, e.days[0].segT
+	return nil
+}
+
+// addDay adds one more source store (day segment).
+func (e *env) addDay(dayNo int64) error {
+	seg := timeutil.Interval(e.src).Calculator().GetSegment(dayNo * day)
+	segT, err := timeutil.Interval(e.src).Calculator().ParseSegmentTime(seg)
 	if err != nil {
 		return err
 	}
 	if segT != dayNo*day {
-		return fmt.Errorf("segment %s parses to %d, expected %d (TZ must be UTC)", e.seg, segT, dayNo*day)
+		return fmt.Errorf("segment %s parses to %d, expected %d (TZ must be UTC)", seg, segT, dayNo*day)
 	}
-	e.segT = segT
+	e.days = append(e.days, dayInfo{dayNo: dayNo, seg: seg, segT: segT})
 	return nil
 }
 
@@ -1008,6 +1055,19 @@ func (e *env) finish() error {
 	for _, t := range e.tgts {
 		if err := e.opRead(t); err != nil {
 			return err
+		}
+	}
+	if e.multi || e.rng.Intn(3) == 0 {
+		// close and reopen every store (source days and targets), then every target family must
+		// still hold what it held
+		e.c.Branch("final-reopen-read")
+		if err := e.opReopen(); err != nil {
+			return err
+		}
+		for _, t := range e.tgts {
+			if err := e.opRead(t); err != nil {
+				return err
+			}
 		}
 	}
 	return nil
@@ -1052,16 +1112,49 @@ func (e *env) storeCase() error {
 	if err := e.setDay(d); err != nil {
 		return err
 	}
-	nh := 1 + rng.Intn(3)
+	if e.multi {
+		// 1-2 more source days of the same month: their families roll up into the SAME target store
+		// (month type: one target family per day; year type: the same target family)
+		tcm := timeutil.Interval(5 * min_).Calculator()
+		extra := 1 + rng.Intn(2)
+		for tries := 0; len(e.days) < 1+extra && tries < 40; tries++ {
+			cand := d + int64(rng.Intn(9)) - 4
+			dup := cand < 0
+			for _, x := range e.days {
+				dup = dup || x.dayNo == cand
+			}
+			if dup || tcm.CalcSegmentTime(cand*day) != tcm.CalcSegmentTime(d*day) {
+				continue
+			}
+			if err := e.addDay(cand); err != nil {
+				return err
+			}
+		}
+		c.Branch(fmt.Sprintf("multi-day-%d", len(e.days)))
+	}
 	hs := map[int]bool{}
-	for len(hs) < nh {
+	pick := func() int {
 		switch rng.Intn(4) {
 		case 0:
-			hs[0] = true
+			return 0
 		case 1:
-			hs[23] = true
-		default:
-			hs[rng.Intn(24)] = true
+			return 23
+		}
+		return rng.Intn(24)
+	}
+	if e.multi {
+		// mostly the SAME hour in every day store: the source families then carry equal family ids
+		h0 := pick()
+		for di := range e.days {
+			hs[di*100+h0] = true
+			if rng.Intn(3) == 0 {
+				hs[di*100+pick()] = true
+			}
+		}
+	} else {
+		nh := 1 + rng.Intn(3)
+		for len(hs) < nh {
+			hs[pick()] = true
 		}
 	}
 	for h := range hs {
@@ -1090,6 +1183,16 @@ func (e *env) storeCase() error {
 	// history
 	nops := 3 + rng.Intn(6)
 	flushed := false
+	if e.multi {
+		// every source family of every day gets data first
+		for _, h := range e.hours {
+			if err := e.opFlush(h, e.genFile(h)); err != nil {
+				return err
+			}
+		}
+		flushed = true
+		nops += 3
+	}
 	for i := 0; i < nops; i++ {
 		h := e.hours[rng.Intn(len(e.hours))]
 		switch k := rng.Intn(12); {
@@ -1111,7 +1214,7 @@ func (e *env) storeCase() error {
 					cut = rng.Intn(6)
 				}
 			}
-			via := len(e.hours) == 1 && cut < 0 && rng.Intn(2) == 0
+			via := len(e.hours) == 1 && len(e.days) == 1 && cut < 0 && rng.Intn(2) == 0
 			if via {
 				c.Branch("via-Store.ForceRollup")
 			}
@@ -1311,6 +1414,9 @@ func (a area) Run(c *core.Ctx) error {
 				err = e.concCase(big)
 			case i == 0:
 				err = e.witnessCase()
+			case i%8 == 7:
+				e.multi = true
+				err = e.storeCase()
 			case i%8 == 3:
 				e.unguarded = true
 				e.failKey = "unguarded-pair-differs-from-recorded-behaviour"
